@@ -48,6 +48,9 @@ A_STEPS = ("A-STEPS: a 64-bit counter that starts below 2^62 and grows by at mos
 # inferred struct-field invariants, filled by fieldinv.register(): (adt path, field name) -> (lo, hi)
 FIELD_RANGES = {}
 
+# return-range summaries of analysed functions, filled by retsum.register(): callee path -> (lo, hi)
+RET_RANGES = {}
+
 # ADT facts (enum discriminant values), filled by callers that have a Facts object: path -> [values]
 ADT_DISCRS = {}
 
@@ -1286,6 +1289,9 @@ class Intervals:
             m = self.call_models.get(c)
             if m is not None:
                 new = m(args, tr)
+            rr = RET_RANGES.get(c)
+            if rr is not None:
+                new = rr if new is None else ((max(new[0], rr[0]), min(new[1], rr[1])) if rr[0] <= new[1] and rr[1] >= new[0] else new)
         else:
             dty = self.body.locals[l][0]
             # ---- counting ranges ------------------------------------------------------------
